@@ -528,10 +528,12 @@ def gen_spec(rng, kind):
                     d["lo"], d["hi"] = hi + 1, lo          # empty range
                 elif r < 0.6:
                     d["hi"] = size + rng.randint(0, 3)      # beyond the subnet
+                    d["lo"] = max(0, d["hi"] - rng.randint(0, 5))
                 elif r < 0.8:
                     d["host"] = rng.getrandbits(32)         # host outside
-                elif base + size >= 2 ** 32 - 2 ** 20:
+                else:                                       # beyond the address space
                     d["hi"] = 2 ** 32 - base + rng.randint(0, 3)
+                    d["lo"] = d["hi"] - rng.randint(0, 5)
             nics.append(d)
         vms.append(nics)
     return {"vms": vms}
@@ -582,7 +584,7 @@ def correspondence(ctx):
                 replay(ctx, {"case": json.load(open(os.path.join(corpus, f)))})
         run_arith(ctx, judge, 256 if not thorough else 1024)
         ctx.extra["exhaustive"] = "all 33 prefix lengths (mask_bit getter/setter); hosts sampled"
-        n = 30000 if thorough else 1500
+        n = 60000 if thorough else 4000
         cases = []
         for _ in range(n):
             kind = pick_kind(ctx.rng)
